@@ -6,6 +6,27 @@ use std::collections::{BTreeMap, HashSet};
 
 use crate::mon::alloc::MonGuard;
 
+/// Occurrences per (property, signature) in this process. Only the first few
+/// of each are written out in full (known findings occur millions of times in
+/// a thorough run), all are counted and the counts go into the summary.
+static SEEN: std::sync::Mutex<Option<BTreeMap<String, u64>>> = std::sync::Mutex::new(None);
+pub const STREAM_PER_SIGNATURE: u64 = 3;
+
+/// Count one occurrence; true if it should still be written out in full.
+pub fn note_violation(prop: &str, sig: &str) -> bool {
+    let _g = MonGuard::new();
+    let mut g = SEEN.lock().unwrap_or_else(|e| e.into_inner());
+    let m = g.get_or_insert_with(BTreeMap::new);
+    let n = m.entry(format!("{prop}:{sig}")).or_insert(0);
+    *n += 1;
+    *n <= STREAM_PER_SIGNATURE
+}
+
+fn violation_counts() -> Vec<(String, u64)> {
+    let g = SEEN.lock().unwrap_or_else(|e| e.into_inner());
+    g.as_ref().map(|m| m.iter().map(|(k, v)| (k.clone(), *v)).collect()).unwrap_or_default()
+}
+
 pub fn esc(s: &str) -> String {
     let mut o = String::with_capacity(s.len() + 2);
     for c in s.chars() {
@@ -140,7 +161,10 @@ impl Report {
             );
         }
         let cells: Vec<String> = self.cells.iter().map(|(k, v)| format!("{}:{}", jstr(k), v)).collect();
-        let counters: Vec<String> = self.counters.iter().map(|(k, v)| format!("{}:{}", jstr(k), v)).collect();
+        let mut counters: Vec<String> = self.counters.iter().map(|(k, v)| format!("{}:{}", jstr(k), v)).collect();
+        for (k, n) in violation_counts() {
+            counters.push(format!("{}:{}", jstr(&format!("violations:{k}")), n));
+        }
         let mut sigs: Vec<u64> = self.sigs.iter().copied().collect();
         sigs.sort();
         sigs.truncate(400_000);
